@@ -76,6 +76,8 @@ type Scn struct {
 	NumByte int            `json:"num_byte,omitempty"` // Single
 	Group   string         `json:"group,omitempty"`    // parent-side grouping key
 	Chain   string         `json:"chain,omitempty"`    // scenarios sharing a chain run in ONE child process, in order (history-dependent state)
+	Source  string         `json:"source,omitempty"`   // "" = recording reader | bytes | file | bufio | limited : the concrete io.Reader type handed to the workflow
+	Prefix  int            `json:"prefix,omitempty"`   // bytes of unrelated good data already consumed from the source before the call (non-zero position)
 	Note    string         `json:"note,omitempty"`
 }
 
@@ -126,16 +128,19 @@ func lfsr64Bytes(seed uint64, n int) []byte {
 }
 
 // build materialises the stream for a workflow needing `need` bytes with sample size B.
-func (s Stream) build(need, B int) []byte {
+func (s Stream) build(need, B int) (out []byte) {
 	extra := s.Extra
 	if extra == 0 {
 		extra = B
 	}
-	if s.Tail == "none" {
-		extra = 0
-	}
+	// content is generated for the full length and cut afterwards, so that a stream with and without
+	// its tail holds the same required bytes
 	total := need + extra
-	var out []byte
+	defer func() {
+		if s.Tail == "none" && len(out) > need {
+			out = out[:need]
+		}
+	}()
 	switch s.Kind {
 	case "matrix":
 		out = mon.EncodeMatrix(s.Matrix, B, s.Seed, gen.NewRng(gen.Mix(s.Seed, 99)))
@@ -234,8 +239,44 @@ func runScenario(sc Scn) Res {
 		B = 16
 	}
 	stream := sc.Stream.build(need, B)
-	rd := mon.NewReader(stream, sc.Chunk, sc.Fault, sc.Delay, &log.Seq)
+	full := stream
+	if sc.Prefix > 0 {
+		full = append(gen.NewRng(gen.Mix(sc.Stream.Seed, 4242)).Bytes(sc.Prefix), stream...)
+	}
+	rd := mon.NewReader(full, sc.Chunk, sc.Fault, sc.Delay, &log.Seq)
 	log.SetPost(rd.Fired)
+	var src io.Reader = rd
+	var closeSrc func()
+	switch sc.Source {
+	case "", "mon":
+		if sc.Prefix > 0 {
+			_, _ = io.CopyN(io.Discard, rd, int64(sc.Prefix))
+		}
+	case "bytes":
+		br := bytes.NewReader(full)
+		_, _ = br.Seek(int64(sc.Prefix), io.SeekStart)
+		src = br
+	case "file":
+		fn := filepath.Join(os.Getenv("VERIF_WORK"), fmt.Sprintf("src-%d-%d.bin", os.Getpid(), sc.ID))
+		_ = os.WriteFile(fn, full, 0o644)
+		f, err := os.Open(fn)
+		if err == nil {
+			_, _ = f.Seek(int64(sc.Prefix), io.SeekStart)
+			src = f
+			closeSrc = func() { f.Close(); os.Remove(fn) }
+		}
+	case "bufio":
+		b := bufio.NewReaderSize(bytes.NewReader(full), 4096)
+		_, _ = b.Discard(sc.Prefix)
+		src = b
+	case "limited":
+		br := bytes.NewReader(full)
+		_, _ = br.Seek(int64(sc.Prefix), io.SeekStart)
+		src = io.LimitReader(br, int64(len(stream)))
+	}
+	if closeSrc != nil {
+		defer closeSrc()
+	}
 	mon.Install(log, sc.Stub)
 	defer mon.RestoreRegistry()
 	t0 := time.Now()
@@ -243,9 +284,9 @@ func runScenario(sc Scn) Res {
 	var err error
 	pan := panicValue(func() {
 		if sc.WF == "Single" {
-			verdict, err = detect.SingleDetect(rd, sc.NumByte)
+			verdict, err = detect.SingleDetect(src, sc.NumByte)
 		} else {
-			verdict, err = w.Fn(rd)
+			verdict, err = w.Fn(src)
 		}
 	})
 	res.Ms = float64(time.Since(t0).Microseconds()) / 1000
@@ -275,7 +316,10 @@ func runScenario(sc Scn) Res {
 		res.Leaked = nil
 	}
 	res.Reads = rd.Calls
-	res.Delivered = rd.Delivered()
+	res.Delivered = rd.Delivered() - int64(sc.Prefix)
+	if sc.Source != "" && sc.Source != "mon" {
+		res.Delivered = -1 // not observable through a foreign reader type
+	}
 	res.FaultFired = rd.Fired()
 	res.RunCalls = len(log.Events)
 	res.PostEvents += rd.PostCalls
